@@ -452,6 +452,10 @@ POOL = [
     ("nan", "(0/0)"), ("+inf", "inf"), ("-inf", "(-inf)"), ("+0", "0"), ("-0", "(-0)"), ("2^53", "9007199254740992"),
     ("1e30", "1e30"), ("-5", "(-5)"), ("-1e30", "(-1e30)"), ("0.5", "0.5"), ("-2.5", "(-2.5)"), ("1", "1"), ("3", "3"),
     ("100", "100"), ("u64max", "18446744073709551616"), ("tiny", "5e-324"),
+    # display-notation thresholds and values whose rounding to 15 significant digits carries into a new digit
+    ("carry15", "999999999999999.5"), ("-carry15", "(-999999999999999.875)"), ("below1e15", "999999999999998.9"),
+    ("1e15", "1e15"), ("carry-frac", "99999.99999999999"), ("1e-4", "0.0001"), ("below1e-4", "0.00009999999999999999"),
+    ("carry-small", "0.9999999999999999"), ("neg3digits", "(-123.45)"), ("max", "1.7976931348623157e308"),
     ("empty-str", '""'), ("non-ascii", '"héllo→🙂"'), ("str", '"abc"'), ("braces", '"{} {} {}"'), ("numstr", '"12"'),
     ("unit", '"km"'),
     ("long-nan-list", "[2, 3, 1, 0, 3, 1, 0/0, 1, 0/0, 2, 3, 0, 2, 1, 0/0, 0/0, 2, 1, 0, 2, 3, 7, 0/0, 1]"),
